@@ -1,14 +1,16 @@
 #!/bin/bash
-# verify_seed.sh <worktree> [crate] : confirm a sub-agent's seeded change in its scratch worktree
-wt="$1"; crate="${2:-deadpool}"
+# verify_seed.sh <worktree> [crate] [crate-dir] [extra cargo args, e.g. "--features rt_tokio_1"]
+# confirm a sub-agent's seeded change in its scratch worktree: demo passes without, fails with; existing tests with the change
+wt="$1"; crate="${2:-deadpool}"; dir="${3:-.}"; extra="$4"
 cd "$wt" || exit 2
 export CARGO_TARGET_DIR="$wt/target" CARGO_NET_OFFLINE=true
 git checkout -q -- . 2>/dev/null
-cp SEEDED/seeded_demo.rs tests/seeded_demo.rs
-echo "== without change: demo"; cargo test -p $crate --offline --test seeded_demo 2>&1 | grep -E "^test result|error" | head -3
+mkdir -p $dir/tests
+cp SEEDED/seeded_demo.rs $dir/tests/seeded_demo.rs
+echo "== without change: demo"; cargo test -p $crate --offline $extra --test seeded_demo 2>&1 | grep -E "^test result|^error" | head -3
 git apply SEEDED/patch.diff || { echo "PATCH DOES NOT APPLY"; exit 1; }
-echo "== with change: demo"; cargo test -p $crate --offline --test seeded_demo 2>&1 | grep -E "^test result|error" | head -3
-rm -f tests/seeded_demo.rs
+echo "== with change: demo"; cargo test -p $crate --offline $extra --test seeded_demo 2>&1 | grep -E "^test result|^error" | head -3
+rm -f $dir/tests/seeded_demo.rs; rmdir $dir/tests 2>/dev/null
 echo "== with change: existing tests"; cargo test -p $crate --offline 2>&1 | grep -E "^test result|FAILED|error\[" | sort | uniq -c | head -20
 git checkout -q -- .
 git status --short | head -5
